@@ -337,7 +337,7 @@ def write_table_v(path, t, doc_rows):
     with open(path, "w") as f:
         f.write("(* GENERATED by harness/lex_tables.py from compiler/front_end/tokenizer.py and doc/grammar.md *)\n")
         f.write("From Coq Require Import NArith List.\nImport ListNotations.\n")
-        f.write("Require Import EmbossV.Lex.Regex EmbossV.Lex.Tokenizer.\nOpen Scope N_scope.\n\n")
+        f.write("Require Import EmbossV.Lex.Regex EmbossV.Lex.Tokenizer.\nLocal Open Scope N_scope.\n\n")
         f.write("Definition code_lits : list str := [\n  ")
         f.write(";\n  ".join("%s (* %s *)" % (coq_str(l), l.replace("*)", "* )")) for l in t.lits))
         f.write("\n].\n\n")
